@@ -386,16 +386,56 @@ def spec (cfg : Config) (ws : List String) : Option (Prog Unit) :=
     let cr ← cr.toNat?
     let ldro ← ldro.toNat?
     modulation (cfg.chip == .sx1272) sf bw cr (UInt8.ofNat ldro)
+  | ["pktparams", pre, implicit, len, crc, _iq] => do
+    let pre ← pre.toNat?
+    let implicit ← parseBool? implicit
+    let len ← len.toNat?
+    let crc ← parseBool? crc
+    if pre < 65536 ∧ len < 256 then some (setLoraPktParams (cfg.chip == .sx1272) pre implicit (UInt8.ofNat len) crc) else none
+  | ["irqparams", mode] =>
+    let m : Nat := if mode = "tx" then 0x0001 else if mode = "cad" then 0x0180
+      else if mode.startsWith "rx" then 0x0252 else 0
+    some (setIrqMask m)
+  | ["txpower", dbm, _, prep] => do
+    let p ← parseInt? dbm
+    let prep ← parseBool? prep
+    let is1272 := cfg.chip == .sx1272
+    -- the caller of the reference clamps the power to the range of the selected output
+    let (lo, hi) : Int × Int :=
+      if is1272 then (if cfg.txBoost then (if p > 17 then (5, 20) else (2, 17)) else (-1, 14))
+      else (if cfg.txBoost then (2, 20) else (-4, 14))
+    let pc := max lo (min hi p)
+    some (setTxParams is1272 cfg.txBoost (cfg.txBoost && decide (pc > 17)) pc (if prep then 9 else 4))
+  | ["payload", h] => do
+    let data ← bytesOfHex? h
+    if data.length > 255 then none else
+    let len := UInt8.ofNat data.length
+    some (do setLoraPktParams (cfg.chip == .sx1272) 8 false len true; writeBuffer len data)
   | _ => none
 
-def effMask (ws : List String) (a : Nat) : UInt8 :=
+def effMask (cfg : Config) (ws : List String) (a : Nat) : UInt8 :=
   match ws.head? with
   | some "modparams" => if a = 0x1d ∨ a = 0x1e ∨ a = 0x37 then 0xff else if a = 0x26 then 0xfb else if a = 0x31 then 0x07 else 0
   | some "dorx" => if a = 0x1e ∨ a = 0x1f then 0xff else 0
+  | some "pktparams" =>
+    if a = 0x1d ∨ a = 0x1e ∨ a = 0x20 ∨ a = 0x21 then 0xff
+    else if a = 0x22 then (if ws[2]? = some "1" then 0xff else 0) else 0
+  | some "irqparams" => if a = 0x11 then 0xff else 0
+  | some "txpower" =>
+    if a = 0x09 then (if cfg.chip != .sx1272 && !cfg.txBoost then 0xff else 0x8f)
+    else if a = 0x0a then 0x0f
+    else if a = 0x4d then (if cfg.chip != .sx1272 then 0x07 else 0)
+    else if a = 0x5a then (if cfg.chip == .sx1272 then 0x07 else 0)
+    else 0
+  | some "payload" => if a = 0x22 ∨ a = 0x0d then 0xff else 0
   | _ => 0xff
 
-def effect (ws : List String) (c : Chip) : String :=
-  hexOfBytes ((List.range 127).map (fun i => c.regs (i + 1) &&& effMask ws (i + 1)))
+def effect (cfg : Config) (ws : List String) (c : Chip) : String :=
+  let regs := (List.range 127).map (fun i => c.regs (i + 1) &&& effMask cfg ws (i + 1))
+  let fifo := match ws with
+    | ["payload", h] => (List.range (min (h.length / 2) 256)).map c.buffer
+    | _ => []
+  hexOfBytes (regs ++ fifo)
 
 end S127
 
@@ -453,14 +493,14 @@ def handle (ws : List String) : String :=
           match S127.model cfg rest with
           | none => "bad-op"
           | some r =>
-            let m := S127.effect rest (trace r.prog (r.prep chip0)).2.1
+            let m := S127.effect cfg rest (trace r.prog (r.prep chip0)).2.1
             let s := match S127.spec cfg rest with
-              | some p => S127.effect rest (trace p (r.prep chip0)).2.1
+              | some p => S127.effect cfg rest (trace p (r.prep chip0)).2.1
               | none => "-"
             s!"{m}|{s}"
         | "efr" =>
           match S127.spec cfg rest with
-          | some p => s!"{S127.effect rest (trace p chip0).2.1}|-"
+          | some p => s!"{S127.effect cfg rest (trace p chip0).2.1}|-"
           | none => "bad-op"
         | _ => "bad-op"
     | _, _, _ => "bad-op"
